@@ -23,7 +23,9 @@ def gamma_of(col):
     return time_gamma() if DTYPES[col] == "dt" else Gamma(1, 0)
 
 
-def make_df(rows, cols):
+def make_df(rows, cols, index=None):
+    """index: None (default RangeIndex) or a list of row labels (chunks cut out of a larger frame keep their labels;
+    filtered / shuffled frames have arbitrary labels)"""
     import numpy as np
     import pandas as pd
 
@@ -39,7 +41,10 @@ def make_df(rows, cols):
         else:
             base = pd.Timestamp("2010-01-04")
             data[c] = pd.to_datetime([base + pd.Timedelta(days=int(r[c][0])) for r in rows])
-    return pd.DataFrame(data)
+    df = pd.DataFrame(data)
+    if index is not None:
+        df.index = list(index)
+    return df
 
 
 POS_KEYS = ("origin", "low", "high", "edges", "centers", "thresholds", "bin_offset")
